@@ -367,3 +367,41 @@ pub fn gen_zone(rng: &mut Rng, cfg: &ZoneGenCfg) -> GenZone {
     };
     GenZone { model, opts, tight }
 }
+
+/// A rule with a transition at or across a year boundary (day 0, 1, 364, 365, `M1.1.d`,
+/// `M12.5.d`, times that push the transition into the neighbouring year): outside the class C05
+/// quantifies its wall-clock clauses over, but the offset at an *instant* is still prescribed
+/// unambiguously as long as every season lasts at least two weeks.
+pub fn gen_edge_rule(rng: &mut Rng, extended: bool, limit: i32) -> Rule {
+    loop {
+        let std_off = gen_utoff(rng, limit);
+        let delta = *rng.pick(&[3600, 3600, 1800, 7200, -3600]);
+        let dst_off = (std_off as i64 + delta as i64).clamp(-(limit as i64), limit as i64) as i32;
+        let edge_day = |rng: &mut Rng| match rng.below(8) {
+            0 => Day::J0(*rng.pick(&[0u16, 1, 364, 365])),
+            1 => Day::J1(*rng.pick(&[1u16, 2, 364, 365])),
+            2 => Day::M { m: 1, w: 1, d: rng.below(7) as u8 },
+            3 => Day::M { m: 12, w: 5, d: rng.below(7) as u8 },
+            4 => Day::M { m: 12, w: 4 + rng.below(2) as u8, d: rng.below(7) as u8 },
+            5 => Day::J0(rng.below(5) as u16),
+            6 => Day::J1(361 + rng.below(5) as u16),
+            _ => Day::M { m: 1, w: 1 + rng.below(2) as u8, d: rng.below(7) as u8 },
+        };
+        let other_day = |rng: &mut Rng| {
+            let m = 4 + rng.below(6) as u8;
+            gen_day(rng, Some(m))
+        };
+        let (start, end) = if rng.chance(1, 2) { (edge_day(rng), other_day(rng)) } else { (other_day(rng), edge_day(rng)) };
+        let a = AltRule {
+            std: LType { utoff: std_off, dst: false, abbr: gen_abbr(rng, false) },
+            dst: LType { utoff: dst_off, dst: true, abbr: gen_abbr(rng, false) },
+            start,
+            start_time: gen_rule_time(rng, extended),
+            end,
+            end_time: gen_rule_time(rng, extended),
+        };
+        if a.seasons_ok(14 * DAY) && !a.in_class(14 * DAY) {
+            return Rule::Alt(a);
+        }
+    }
+}
